@@ -8,6 +8,7 @@ type unit struct {
 	funcs           []string
 	hints           string   // Go declarations (types, constants, bodyless funcs) of what is used from other packages, pkg.X written pkg_X
 	actions         []string // receiver fields (interfaces to the outside) whose method calls are recorded, in order, as effects
+	clock           bool     // time.Now() reads, and time.Sleep(d) advances, an explicit clock `now_` that is also passed to the untranslated methods of the receiver
 	drop            []string // statements calling something whose source text starts with one of these are left out (statistics, logging)
 }
 
@@ -67,5 +68,9 @@ type raft_SnapshotMeta struct {
 	Index uint64
 	Term  uint64
 }
+`},
+	{name: "CasRetry", dir: "internal/rsync", file: "cas.go", funcs: []string{"CheckAndSet.BeginWithRetry"}, clock: true,
+		hints: `
+func errors_Is(err, target error) bool
 `},
 }
